@@ -176,6 +176,12 @@ impl Slaac {
             return;
         }
 
+        // An address formed from a multicast prefix is not a unicast address: the interface
+        // refuses (panics on) such an address.
+        if prefix.prefix.is_multicast() {
+            return;
+        }
+
         let cidr = Ipv6Cidr::new(prefix.prefix, prefix.prefix_len);
 
         if prefix.valid_lifetime > Duration::ZERO {
